@@ -193,19 +193,27 @@ def _local_fed_by_table(f, operand, table):
     """The local is (only) computed from a lookup in `table`."""
     if not operand.locals or operand.fields:
         return False
-    name = sorted(operand.locals)[0]
+    names = {sorted(operand.locals)[0]}
     seen = False
-    for bid, i in flow.all_events(f):
-        for lhs, var, op, rhs in flow.stores(f, i):
-            nm = var["name"] if var is not None else None
-            if lhs is not None:
-                le = f.exprs[ex.skip(f, lhs)]
-                if le["k"] == "ref":
-                    nm = le["name"]
-            if nm == name and rhs is not None:
-                for n in ex.walk(f, rhs):
-                    if f.exprs[n]["k"] == "ref" and f.exprs[n].get("name") == table:
-                        seen = True
+    for _ in range(4):          # follow copies between locals (a helper's result temporary, its own local)
+        grew = False
+        for bid, i in flow.all_events(f):
+            for lhs, var, op, rhs in flow.stores(f, i):
+                nm = var["name"] if var is not None else None
+                if lhs is not None:
+                    le = f.exprs[ex.skip(f, lhs)]
+                    if le["k"] == "ref":
+                        nm = le["name"]
+                if nm in names and rhs is not None:
+                    for n in ex.walk(f, rhs):
+                        e = f.exprs[n]
+                        if e["k"] == "ref" and e.get("name") == table:
+                            seen = True
+                        elif e["k"] == "ref" and e.get("dk") == "local" and e["name"] not in names:
+                            names.add(e["name"])
+                            grew = True
+        if seen or not grew:
+            break
     return seen
 
 
@@ -321,7 +329,34 @@ def _flags_dep(ctx, run, f):
                         if all((cb_ == dpos[0] and flow.elem_pos(f)[ci][1] > dpos[1]) or
                                (cb_ != dpos[0] and cb_ in flow.reach_from(f, dpos[0])) for cb_, ci in clears):
                             ok = True
+        stale = None
         if ok:
+            # ... and after every store that may raise the flag for the packet being delivered
+            for name in o.locals:
+                for bid, i in flow.all_events(f):
+                    for lhs, var, op, rhs in flow.stores(f, i):
+                        nm = var["name"] if var is not None else None
+                        if lhs is not None and f.exprs[ex.skip(f, lhs)]["k"] == "ref":
+                            nm = f.exprs[ex.skip(f, lhs)]["name"]
+                        if nm != name or rhs is None or "%s.%s" % F_FLAGS not in atoms.Operand(f, rhs).fields:
+                            continue
+                        dpos = flow.elem_pos(f)[i]
+                        for b2, j in flow.all_events(f):
+                            e2 = f.exprs[j]
+                            if e2["k"] == "asg" and e2["op"] in ("|=", "=") and j != i:
+                                l2 = f.exprs[ex.skip(f, e2["c"][0])]
+                                if l2["k"] == "mem" and (l2.get("in"), l2["member"]) == F_FLAGS and e2["op"] == "|=":
+                                    jp = flow.elem_pos(f)[j]
+                                    after_def = (b2 == dpos[0] and jp[1] > dpos[1]) or (b2 != dpos[0] and b2 in flow.reach_from(f, dpos[0]))
+                                    before_call = (b2 == cpos[0] and jp[1] < cpos[1]) or (b2 != cpos[0] and cpos[0] in flow.reach_from(f, b2))
+                                    if after_def and before_call:
+                                        stale = (i, j)
+        if ok and stale is not None:
+            run.violation("RF-DEP", key, "the callback receives `%s`, computed by `%s` before `%s` may raise VBI_IDL_DATA_LOST for "
+                          "the very packet being delivered: that loss is missing from the argument and is then erased by the clear"
+                          % (ex.pretty(f, arg), ex.pretty(f, stale[0])[:60], ex.pretty(f, stale[1])[:50]), ex.loc(f, call),
+                          witness={"definition": ex.pretty(f, stale[0]), "later_store": ex.pretty(f, stale[1])})
+        elif ok:
             run.holds("RF-DEP", key, "the callback receives a local computed from dx->flags before VBI_IDL_DATA_LOST is cleared",
                       ex.loc(f, call))
         else:
@@ -476,6 +511,10 @@ def _histbyte(ctx, run, f):
             r = f.exprs[ex.skip(f, rhs)]
             if r["k"] == "idx" and ivl.array_bound(f, ex.skip(f, rhs)) and ivl.array_bound(f, ex.skip(f, rhs))[0] == 42:
                 tdefs.append((bid, i, le["name"]))
+    if not tdefs and getattr(f, "inlined", None):
+        run.note("idl_a_demux_feed: the payload loop now reads through a pointer of an inlined helper (%s); the data-byte rule "
+                 "does not apply to this shape" % ", ".join(f.inlined))
+        return
     run.floor("IDL data-byte reads inside the payload loop", len(tdefs), 1)
     for bid, i, tname in tdefs:
         head = loops.innermost(f, bid)
